@@ -1,4 +1,4 @@
-(* Recorded findings for C16 (findings_proposed/C16.txt): statements of the property that are false of the faithful
+(* Recorded findings for C16 (KNOWN_FINDINGS.txt): statements of the property that are false of the faithful
    model Model/Lcd.v, each with a minimal witness decided by vm_compute.  The matching `_partial` theorems (with the
    executable triggers of Model/LcdCases.v) are in Properties/C16.v.  If this file stops compiling a finding is stale. *)
 From TT Require Import Proofs.C16.All.
@@ -16,15 +16,9 @@ Definition two (regs : list elem) (dr pr : option text) (pst : smap) : doc :=
 Definition pc (z : Z) : len := mkLen (inject_Z z) Upct.
 
 (* lcd-position: the filter fails on a region with tts:position 10% 10% and tts:extent 80% 80% *)
-Theorem C16_total_refuted_position : exists c d, trig_nobody c d = false /\ lcd c d = Err errCompute.
+Theorem C16_total_refuted_position : exists c d, lcd_typed d = true /\ lcd c d = Err errCompute.
 Proof.
   exists dflt, (two [el KRegion (Some r0) None None [(p_Position, VPos (pc 10) 0 (pc 10) 0); (p_Extent, VExtent (pc 80) (pc 80))] []] (Some r0) None []).
-  split; vm_compute; reflexivity.
-Qed.
-(* lcd-bg-no-body: the filter fails on a document without body when bg_color is configured *)
-Theorem C16_total_refuted_no_body : exists c d, trig_position d = false /\ lcd c d = Err errNoBody.
-Proof.
-  exists (mkCfg 10 false None (Some 4278190335)), (mkDoc [] None [] 15 32 1080 1920 None None []).
   split; vm_compute; reflexivity.
 Qed.
 (* lcd-position-survives: tts:position on a paragraph is still there *)
@@ -35,25 +29,11 @@ Proof.
 Qed.
 (* lcd-nested-region-conflict: <div region=r0><p region=r1>: nothing visible before, the text visible after *)
 Theorem C16_timeline_refuted_nested : exists c d d' t,
-  lcd c d = Ok d' /\ no_hiding_b d = true /\ trig_end_zero d = false /\ visible d t = [] /\ visible d' t <> [].
+  lcd c d = Ok d' /\ no_hiding_b d = true /\ visible d t = [] /\ visible d' t <> [].
 Proof.
   exists dflt, (two [el KRegion (Some r0) None None [] []; el KRegion (Some r1) None None [] []] (Some r0) (Some r1) []). eexists. exists 0%Q.
-  split; [vm_compute; reflexivity|]. split; [vm_compute; reflexivity|]. split; [vm_compute; reflexivity|].
+  split; [vm_compute; reflexivity|]. split; [vm_compute; reflexivity|].
   split; [vm_compute; reflexivity | vm_compute; discriminate].
-Qed.
-(* lcd-region-end-zero: region r0 with end = 0 absorbs the always-active r1: the text shown in r1 disappears *)
-Theorem C16_timeline_refuted_end_zero : exists c d d' t,
-  lcd c d = Ok d' /\ no_hiding_b d = true /\ trig_nested c d = false /\ visible d t <> [] /\ visible d' t = [].
-Proof.
-  exists dflt, (two [el KRegion (Some r0) (Some 0%Q) None [] []; el KRegion (Some r1) None None [] []] (Some r1) None []). eexists. exists 1%Q.
-  split; [vm_compute; reflexivity|]. split; [vm_compute; reflexivity|]. split; [vm_compute; reflexivity|].
-  split; [vm_compute; discriminate | vm_compute; reflexivity].
-Qed.
-(* and the references of r1 go to a region with another timing *)
-Theorem C16_redirected_refuted_end_zero : exists c d d', lcd c d = Ok d' /\ redirected_b true d d' = false.
-Proof.
-  exists dflt, (two [el KRegion (Some r0) (Some 0%Q) None [] []; el KRegion (Some r1) None None [] []] (Some r1) None []). eexists.
-  split; vm_compute; reflexivity.
 Qed.
 (* observation (not a clause of the property): the writing mode never reaches the fingerprint, because the style
    clean-up removes tts:writingMode from the region and from the initial values before it is read — a vertical and a
@@ -65,6 +45,5 @@ Proof.
   split; [vm_compute; reflexivity|]. split; reflexivity.
 Qed.
 
-Print Assumptions C16_total_refuted_position.  Print Assumptions C16_total_refuted_no_body.  Print Assumptions C16_whitelist_refuted.
-Print Assumptions C16_timeline_refuted_nested.  Print Assumptions C16_timeline_refuted_end_zero.
-Print Assumptions C16_redirected_refuted_end_zero.  Print Assumptions C16_writing_mode_ignored.
+Print Assumptions C16_total_refuted_position.  Print Assumptions C16_whitelist_refuted.
+Print Assumptions C16_timeline_refuted_nested.  Print Assumptions C16_writing_mode_ignored.
